@@ -16,6 +16,7 @@ import pandas as pd
 from ..logger import log
 from .scenario_runner import ScenarioRunner
 from ..sdsimulation import SdSimulation
+from ..util.floating_point import timerange
 
 
 class SdRunner(ScenarioRunner):
@@ -116,8 +117,19 @@ class SdRunner(ScenarioRunner):
                 if scenario_manager in settings:
                     if scenario in settings[scenario_manager]:
                         if step > sc.sd_simulation.mod.starttime:
+                            # The past does not change any more. Evaluation is lazy, so whatever has not been evaluated yet for the
+                            # steps before this one (a constant nobody asked for that a delay looks back at, ...) would otherwise be
+                            # computed with the new settings: evaluate it now, with the settings that were in force.
+                            mod = sc.sd_simulation.mod
+                            done = getattr(sc.sd_simulation, "_evaluated_until", None)
+                            for past in timerange(mod.starttime if done is None else done, step, mod.dt, exclusive=True):
+                                for name in list(mod.equations.keys()):
+                                    try:
+                                        mod.equation(name, past)
+                                    except Exception:
+                                        pass # not an equation of time alone
+                            sc.sd_simulation._evaluated_until = step
                             # the stocks of this step only depend on the previous step, which ran with the previous settings.
-                            # Evaluate them first: whatever they need and has not been evaluated yet would otherwise be computed with the new settings
                             for stock_name in sc.sd_simulation.mod.stocks:
                                 sc.sd_simulation.mod.equation(stock_name, step)
                         if "constants" in settings[scenario_manager][scenario]:
